@@ -109,6 +109,8 @@ def main(tier, seed, only=None):
         for cfg_name in tp["cfgs"]:
             if d.cfgs and cfg_name not in d.cfgs:
                 continue
+            if core.CFGS[cfg_name].via and not d.contention:
+                continue
             jobs.append((d, cfg_name, tier))
     # heavy op alphabets first (better pool balance); seed only rotates the order
     jobs.sort(key=lambda j: -len(j[0].ops))
